@@ -26,6 +26,7 @@ Print Assumptions C10_loc_total.
 
 (* The full claim: for all stage outcomes (syntax error at any position,
    validation errors, operation-selection error, variable-coercion errors,
+   directive-argument coercion error of the root selection set,
    execution result with located errors, paths and extensions) the response
    is well formed.  It is FALSE for the unchanged code: see the witness. *)
 Definition C10_wf_full : Prop := forall doc st r,
@@ -66,6 +67,17 @@ Theorem C10_data_presence : forall doc st r,
   data_presence (failed_early st) r.
 Proof. exact pipeline_data_presence. Qed.
 Print Assumptions C10_data_presence.
+
+(* ... and when the request is aborted after validation but before any field
+   runs -- operation selection, variable coercion, or invalid @skip/@include
+   arguments on the root selection set (_abort(data=None, errors=...)) --
+   "data" is present and null and "errors" is non-empty: data is omitted only
+   for parse and validation failures *)
+Theorem C10_data_null_when_aborted : forall doc st r,
+  pipeline_model doc st = Ok r -> aborted_before_execution st = true ->
+  response_data r = Some JNull /\ response_errors r <> [].
+Proof. exact pipeline_abort_data. Qed.
+Print Assumptions C10_data_null_when_aborted.
 
 (* the executor's null/error matching survives response assembly: paths are
    neither dropped nor altered *)
@@ -121,7 +133,7 @@ Example C10_example :
   let a := str_of_string "a" in
   let ext := [(str_of_string "code", JInt 7)] in
   let err := EResolver (str_of_string "boom") [NodeRef (Some (2, 3)) true] (Some [PKey a]) (Some ext) in
-  let st := Stages None [] None [] [] (JObj [(a, JNull)], [err]) in
+  let st := Stages None [] None [] [] [] (JObj [(a, JNull)], [err]) in
   stages_wf_b doc st = true /\
   exists r, pipeline_model doc st = Ok r /\ wf_response_b doc r = true /\
             null_error_match_b [[PKey a]] r = true /\
@@ -149,23 +161,27 @@ Proof. vm_compute. split; [reflexivity|]. eexists. repeat split; reflexivity. Qe
    Fixed by the conversion (C04's model does not carry them): coercion /
    non-null message texts are opaque; error nodes have a source; extensions
    are the resolver's dict or none; C04's values have no non-finite floats. *)
-From PyGql Require Import Spec.ExecSpec Proofs.ExecTopProofs Exec.ResponseExec Proofs.ResponseExecProofs.
+From PyGql Require Import Spec.ExecSpec Proofs.ExecProofs Exec.ResponseExec Proofs.ResponseExecProofs.
 
 (* the executor's errors are exactly the obligated positions, in order, each
-   once, and the data is null at each of them *)
+   once, and the data is null at each of them or at an ancestor (C04's
+   null_on_path: a list item that failed before the enclosing field was
+   aborted by invalid directive arguments sits below a nulled field) *)
 Theorem C10_exec_errors_are_obligations :
   forall sch coerce_args world tyres cfuel fuel d opname vs root dd es,
     schema_nn_ok sch ->
     execute sch coerce_args world tyres cfuel fuel d opname vs root = Ok (dd, es) ->
     let obl := obligations sch coerce_args world tyres cfuel fuel d opname vs root in
     map e_path es = obl /\ NoDup obl /\
-    forall q, In q obl -> q <> [] /\ at_path dd q = Some PNone.
+    forall q, In q obl -> q <> [] /\ null_on_path dd q.
 Proof. exact exec_errors_are_obligations. Qed.
 Print Assumptions C10_exec_errors_are_obligations.
 
 (* every null in a non-nullable position or at a failed field is matched by
-   exactly one error with that path -- in the response of the composed model,
-   with no hypothesis about the executor; and no error path is anything else *)
+   exactly one error with that path (null_error_match) -- in the response of
+   the composed model, with no hypothesis about the executor; every obligated
+   position has exactly one error and is null in "data" or lies below a null;
+   and no error path is anything else *)
 Theorem C10_null_error_match_exec :
   forall doc fr sch coerce_args world tyres cfuel fuel d opname vs root dd es r,
     schema_nn_ok sch ->
@@ -175,7 +191,7 @@ Theorem C10_null_error_match_exec :
     let obl := map conv_path (obligations sch coerce_args world tyres cfuel fuel d opname vs root) in
     null_error_match obl r /\
     (forall q, In q obl ->
-       (exists data, response_data r = Some data /\ jget data q = Some JNull) /\
+       (exists data q1 q2, response_data r = Some data /\ q = q1 ++ q2 /\ jget data q1 = Some JNull) /\
        count_path q (map error_path (response_errors r)) = 1) /\
     (forall p, In (Some p) (map error_path (response_errors r)) -> In p obl).
 Proof. exact null_error_match_exec. Qed.
